@@ -69,6 +69,11 @@ Arguments RPanic {A} p.
 Definition renc_new (c : rcfg) : renc :=
   {| e_bulk := []; e_lower := 0; e_range := smax c; e_sit := Normal |}.
 
+(* RangeEncoder::clear: bulk.clear(); state = default; situation = Normal (the last assignment
+   was missing before the repair of finding F18) *)
+Definition renc_clear (c : rcfg) (e : renc) : renc :=
+  {| e_bulk := []; e_lower := 0; e_range := smax c; e_sit := Normal |}.
+
 (* RangeCoderState::new(lower, range) : Err(()) iff range >> (S - W) == 0 *)
 Definition rstate_ok (c : rcfg) (range : N) : bool :=
   negb (shr range (rSB c - rWB c) =? 0).
